@@ -399,8 +399,9 @@ func (p *Process) stopProcess(cancelReadinessFuncs bool) error {
 	}
 	if !p.isRunning() {
 		log.Debug().Msgf("process %s is in state %s not shutting down", p.getName(), p.getStatusName())
-		// prevent pending process from running
-		if p.isOneOfStates(types.ProcessStatePending) {
+		// prevent pending process from running; an instance created by a later start request
+		// waits for its dependencies under whatever status its predecessor left behind
+		if p.isOneOfStates(types.ProcessStatePending) || !p.hasStarted() {
 			p.onProcessEnd(types.ProcessStateTerminating)
 		}
 		return nil
@@ -479,6 +480,12 @@ func (p *Process) prepareForShutDown() {
 	//p.procConf.RestartPolicy.Restart = types.RestartPolicyNo
 	p.isStopped.Store(true)
 
+}
+
+func (p *Process) hasStarted() bool {
+	p.Lock()
+	defer p.Unlock()
+	return p.started
 }
 
 func (p *Process) onProcessStart() {
